@@ -190,6 +190,18 @@ CLAIMS = {
              'agreement for two-column tables only in deep search',
         tech='Lean 4 proof over a hand-written plan-term model + bit-exact plan interpretation on real fitted vines',
         ref='5 C17'),
+    'C01': dict(
+        text='Lean 4 theorems about a model of GaussianMultivariate.fit/sample: output labels = training labels in order and n '
+             'rows for every table, n and draw matrix; column k is ppf_k(Phi(draw column k)) (alignment); a column trained on '
+             'constant data is replicate n c; pointwise probability-integral transform Q(Phi z) <= x iff z <= Phi^-1(F x) and '
+             'its measure-theoretic form: the push-forward of Mathlib\'s standard normal under Q o Phi has CDF F; Kendall '
+             'concordance/discordance/tie counts (hence tau-b) of the sampled columns equal those of the normal draws for '
+             'strictly increasing quantile maps, for samples of any length; tied by interpreting the plan with the real fitted '
+             'univariates on the recorded multivariate_normal draws (bit-equality).',
+        note='Sheppard\'s tau = (2/pi) asin rho and statistical recovery are partial (search-supported); marginal quantile pairs '
+             'and norm.cdf are hypothesis structures validated each run; KDE tail +-inf is a recorded finding',
+        tech='Lean 4 proof (Mathlib measure theory for the PIT) over a plan-term model + replay of recorded RNG draws',
+        ref='5 C01'),
 }
 
 
